@@ -2292,6 +2292,13 @@ impl Translator {
                     | AssignOperator::StarEq
                     | AssignOperator::SlashEq
                     | AssignOperator::ModEq => {
+                        // a right-hand side that never yields a value (`x += panic("..")`) has type never: the
+                        // operation is then chosen by the target's type (the instruction is not reached anyway)
+                        let rvalue_ty = if rvalue_ty == SolvedType::Never {
+                            self.get_ty(mono, expr1.node()).unwrap()
+                        } else {
+                            rvalue_ty
+                        };
                         let perform_op = |st| match assign_op {
                             AssignOperator::PlusEq => {
                                 match rvalue_ty {
